@@ -32,7 +32,7 @@ META = {
         "inheritance renderings put the base class' transitions first in declaration order; enum/dict state containers carry no inline enter/exit callbacks",
     ],
     "must_observe": ["renderings", "pairs_compared", "events_executed", "styles_seen"],
-    "shard_timeout": {"quick": 300, "thorough": 3400},
+    "shard_timeout": {"quick": 900, "thorough": 3400},
 }
 
 PROFILE = {"n_states": (2, 5), "n_events": (1, 4), "extra_transitions": (1, 6), "p_multi_event": 0.3,
